@@ -99,6 +99,8 @@ class Contract:
         self.fuel = kw.pop("fuel", 1)
         self.fresh_result = kw.pop("fresh_result", [])
         self.timeout = kw.pop("timeout", None)
+        self.bind_calls = kw.pop("bind_calls", {})      # callee name -> ghost name bound to the call's result
+        self.bind_witness = kw.pop("bind_witness", {})  # "callee.witness" -> ghost name bound to the callee's ghost witness
         if kw:
             raise TypeError(f"unknown contract fields {list(kw)} for {key}")
 
@@ -153,17 +155,88 @@ class Engine:
     def feasible(self, pc, extra=None):
         t0 = time.time()
         s = z3.Solver()
-        s.set("timeout", 3000)
-        for c in pc:
-            s.add(c)
+        s.set("timeout", 1000)
+        # quantified facts (element ranges, reversal / update frames) only restrict: leaving them out of a feasibility
+        # query over-approximates the feasible paths (sound) and keeps the query quantifier-free (fast, no mbqi)
+        forms = [c for c in pc if not z3.is_quantifier(c)]
         if extra is not None:
-            s.add(extra)
-        for a in self.global_axioms():
-            s.add(a)
+            forms.append(extra)
+        # sequence lengths are abstracted to free non-negative integers: z3 builds sequence models by iterative
+        # deepening on their length, which is very slow for facts such as len(data) >= 128; the abstraction only adds models
+        subst = {}
+        for f in forms:
+            for lt in self.length_terms(f):
+                k = lt.get_id()
+                if k not in subst:
+                    subst[k] = (lt, self.len_abs(lt.arg(0)))
+        pairs = list(subst.values())
+        for f in forms:
+            s.add(z3.substitute(f, *pairs) if pairs else f)
+        for c in self.__dict__.get("_len_consts", {}).values():
+            s.add(c >= 0)
+        # unfolding axioms are left out as well (spec functions stay uninterpreted here): again an over-approximation
+        lits = list(self.strlits.values())
+        if len(lits) > 1:
+            s.add(z3.Distinct(*lits))
         r = s.check()
         self.feas_time += time.time() - t0
         self.feas_calls += 1
         return r != z3.unsat
+
+    def len_abs(self, t):
+        """Integer term for the length of sequence term t in which only the lengths of atoms are free variables."""
+        cache = self.__dict__.setdefault("_lenabs_cache", {})
+        k = t.get_id()
+        if k in cache:
+            return cache[k]
+        if z3.is_app_of(t, z3.Z3_OP_SEQ_CONCAT):
+            r = z3.Sum([self.len_abs(c) for c in t.children()])
+        elif z3.is_app_of(t, z3.Z3_OP_SEQ_UNIT):
+            r = z3.IntVal(1)
+        elif z3.is_app_of(t, z3.Z3_OP_SEQ_EMPTY):
+            r = z3.IntVal(0)
+        elif z3.is_app_of(t, z3.Z3_OP_SEQ_EXTRACT):
+            n = self.len_abs(t.arg(0))
+            o, l = t.arg(1), t.arg(2)
+            pairs = [(lt, self.len_abs(lt.arg(0))) for x in (o, l) for lt in self.length_terms(x)]
+            if pairs:
+                o, l = z3.substitute(o, *pairs), z3.substitute(l, *pairs)
+            r = z3.If(z3.Or(o < 0, o >= n, l <= 0), z3.IntVal(0), z3.If(o + l <= n, l, n - o))
+        elif z3.is_app_of(t, z3.Z3_OP_ITE):
+            c = t.arg(0)
+            pairs = [(lt, self.len_abs(lt.arg(0))) for lt in self.length_terms(c)]
+            if pairs:
+                c = z3.substitute(c, *pairs)
+            r = z3.If(c, self.len_abs(t.arg(1)), self.len_abs(t.arg(2)))
+        else:
+            r = z3.Int("len!abs%d" % k)
+            self.__dict__.setdefault("_len_consts", {})[k] = r
+            self.__dict__.setdefault("_len_keep", []).append(t)
+        cache[k] = r
+        return r
+
+    def length_terms(self, f):
+        cache = self.__dict__.setdefault("_len_cache", {})
+        k = f.get_id()
+        if k in cache:
+            return cache[k]
+        out = {}
+        seen = set()
+        stack = [f]
+        while stack:
+            t = stack.pop()
+            tid = t.get_id()
+            if tid in seen:
+                continue
+            seen.add(tid)
+            if z3.is_quantifier(t):
+                continue
+            if z3.is_app_of(t, z3.Z3_OP_SEQ_LENGTH):
+                out[tid] = t
+            stack.extend(t.children())
+        cache[k] = list(out.values())
+        self.__dict__.setdefault("_len_keep", []).append(f)
+        return cache[k]
 
     # ------------------------------------------------------------------ value helpers
     def as_int(self, v):
